@@ -1,13 +1,13 @@
 SPECIFICATION Spec
 CONSTANTS
-  Class = "rdv"
+  Class = "sse"
   Ideal = FALSE
   KSet = {"n"}
   NW <- W11
   NR <- W11
-  NC <- W22
+  NC <- W21
   WMax = 3
   CMax = 2
-INVARIANTS TypeOK Fifo NoSpuriousError NoLoss RestClose RestRead RestWrite RestNoLoss ClosedStopsReads ClosedStopsWrites
+INVARIANTS TypeOK Fifo NoSpuriousError NoLoss RestAll ClosedStopsWrites
 PROPERTIES ClosedForGood
 CHECK_DEADLOCK FALSE
